@@ -23,7 +23,7 @@ def run_case(case, R):
     ops = [tuple(o) for o in case["ops"]]
     names = [o[0] for o in ops]
     nreq = names.count("req")
-    R.nt((nreq >= 2 or "stall" in names) and any(n in ("cancel", "fin", "reset", "ans+event", "ans-part", "unsolicited", "close") or (n == "adv" and o[1] >= 30) for n, o in zip(names, ops)))
+    R.nt((nreq >= 2 or "stall" in names) and any(n in ("cancel", "fin", "reset", "reset+cancel", "reset+close", "ans+event", "ans-part", "unsolicited", "close") or (n == "adv" and o[1] >= 30) for n, o in zip(names, ops)))
     for n in set(names):
         R.cls("op:" + n)
 
@@ -242,6 +242,19 @@ def run_case(case, R):
                         t.cancel()
                         if reqs[rid].get("written_conn") is not None:
                             disconnects.append((loop.time(), reqs[rid]["written_conn"], "cancel"))
+                    elif name == "reset+cancel":
+                        # the accessory resets the connection and the caller gives up in the same loop iteration: the RST is in the kernel
+                        # but the event loop has not polled the socket yet
+                        i = op[1] % NCALLERS
+                        t = callers[i]
+                        if conn is None or t is None or t.done():
+                            raise Pruned
+                        partial.clear()
+                        rid = next(r for r, d in reqs.items() if d["task"] is t)
+                        reqs[rid]["we_cancelled"] = True
+                        t.cancel()           # the task is woken in the next iteration - before the socket's reader, which that iteration's poll appends
+                        conn.close("reset")
+                        disconnects.append((loop.time(), conn.index, "reset"))
                     elif name in ("fin", "reset"):
                         if conn is None:
                             raise Pruned
@@ -250,11 +263,14 @@ def run_case(case, R):
                         conn.close(name)
                         if not invisible:
                             disconnects.append((loop.time(), conn.index, name))
-                    elif name == "close":
+                    elif name in ("close", "reset+close"):
                         if conn is None:
                             raise Pruned
                         partial.clear()
                         closer = asyncio.ensure_future(p.close())
+                        if name == "reset+close":
+                            conn.close("reset")
+                            disconnects.append((loop.time(), conn.index, "reset"))
                         await vtime.settle(loop)
                         if not conn.t.get_write_buffer_size():
                             # (with unsent bytes in the transport asyncio reports the loss only once they are flushed; the statement
@@ -499,7 +515,7 @@ def pipelined_cases(draw):
 
 ALPHABET_QUICK = [("req", 0), ("req", 1), ("close",), ("ans",), ("ans-split", 5), ("ans+event", 11), ("ans-part", 9), ("ans-rest",), ("event",), ("cancel", 0),
                   ("adv", 29.9), ("adv", 31), ("fin",), ("reset",), ("unsolicited",)]
-ALPHABET_FULL = ALPHABET_QUICK + [("req", 2), ("cancel", 1), ("adv", 0.1), ("adv", 30), ("ans-split", 60), ("ans+event", 2)]
+ALPHABET_FULL = ALPHABET_QUICK + [("req", 2), ("cancel", 1), ("adv", 0.1), ("adv", 30), ("ans-split", 60), ("ans+event", 2), ("reset+cancel", 0), ("reset+close",)]
 
 
 def enum_dfs(tier):
@@ -511,6 +527,9 @@ def enum_dfs(tier):
         yield {"ops": [["req", 0], ["ans+event", 11], ["req", 1], ["event"], ["ans"], ["req", 0], ["ans+event", 2], ["req", 2], ["ans-split", 5], ["event"], ["req", 1], ["ans"]], "chunked": ch}
     for hdr in ("lower", "upper"):
         yield {"ops": [["req", 0], ["ans"], ["req", 1], ["ans+event", 11], ["req", 0], ["ans-split", 5], ["event"], ["req", 2], ["ans"]], "hdr": hdr}
+    for tail in (["reset+cancel", 0], ["reset+cancel", 1], ["reset+close"]):
+        for pre in ([["req", 0]], [["req", 0], ["req", 1]], [["req", 1], ["ans-part", 9], ["req", 0]], [["req", 0], ["ans"], ["req", 0], ["req", 1]]):
+            yield {"ops": pre + [tail, ["adv", 1.0], ["req", 2], ["ans"]], "lenient": True}
     alpha = ALPHABET_QUICK if tier == "quick" else ALPHABET_FULL
     depth = 4 if tier == "quick" else 5
     for d in range(1, depth + 1):
@@ -540,8 +559,8 @@ def histories(draw):
     ops = []
     for _ in range(n):
         name = draw(st.sampled_from(["req", "req", "req", "ans", "ans", "ans-split", "ans+event", "ans-part", "ans-rest", "event", "cancel",
-                                     "adv", "fin", "reset", "unsolicited", "close", "stall", "drain", "raw"]))
-        if name in ("req", "cancel", "raw"):
+                                     "adv", "fin", "reset", "unsolicited", "close", "stall", "drain", "raw", "reset+cancel", "reset+close"]))
+        if name in ("req", "cancel", "raw", "reset+cancel"):
             ops.append([name, draw(st.integers(0, NCALLERS - 1))])
         elif name in ("ans-split", "ans+event", "ans-part"):
             ops.append([name, draw(st.integers(0, 400))])
